@@ -1111,6 +1111,12 @@ DFANIputann(const char *filename, uint16 tag, uint16 ref, uint8 *ann, int32 annl
     /* check if this tag/ref already has this type of annotation */
     annref = DFANIlocate(file_id, type, tag, ref);
     if (annref == 0) {
+        /* 0 is "this object has no annotation of this type yet" - or the directory of the
+           annotations in the file could not be built, which must not be taken for the former */
+        hdf_err_code_t why = (hdf_err_code_t)HEvalue(1);
+
+        if (why == DFE_READERROR || why == DFE_BADAID || why == DFE_NOSPACE)
+            HCLOSE_GOTO_ERROR(file_id, DFE_INTERNAL, FAIL);
         annref = Htagnewref(file_id, anntag);
         if (annref == 0)
             HCLOSE_GOTO_ERROR(file_id, DFE_NOREF, FAIL);
